@@ -16,7 +16,7 @@ git -C /repo worktree add --detach "$WT" HEAD -q || { echo "RESULT $NAME worktre
 cleanup() { git -C /repo worktree remove --force "$WT" 2>/dev/null; rm -rf "$WT"; }
 trap cleanup EXIT
 cd "$WT"
-git apply --check "$D/patch.diff" 2>/dev/null || { echo "RESULT $NAME patch-does-not-apply"; exit 2; }
+APPLY="git apply"; git apply --check "$D/patch.diff" 2>/dev/null || { APPLY="git apply -3"; git apply -3 --check "$D/patch.diff" 2>/dev/null || { echo "RESULT $NAME patch-does-not-apply"; exit 2; }; }
 META="$D/meta.json"
 PKG=$(python3 -c "import json;print(json.load(open('$META')).get('demo_package_dir','.'))")
 DEMO=$(ls "$D"/demo*_test.go "$D"/demo*.go 2>/dev/null | head -1)
@@ -27,7 +27,7 @@ DEMODST="$WT/$PKG/zz_seeded_demo_test.go"
 cp "$DEMO" "$DEMODST"
 # without the patch: demo must pass
 if go test -vet=off -count=1 -run "Test" -run "$(grep -o 'func Test[A-Za-z0-9_]*' "$DEMO" | sed 's/func //' | paste -sd'|')" "./$PKG/" >"$VR/demo_clean.log" 2>&1; then CLEAN=pass; else CLEAN=fail; fi
-git apply "$D/patch.diff"
+$APPLY "$D/patch.diff" >/dev/null 2>&1
 go build ./... >"$VR/build.log" 2>&1 || { echo "RESULT $NAME does-not-compile"; exit 2; }
 if go test -vet=off -count=1 -run "$(grep -o 'func Test[A-Za-z0-9_]*' "$DEMO" | sed 's/func //' | paste -sd'|')" "./$PKG/" >"$VR/demo_patched.log" 2>&1; then PATCHED=pass; else PATCHED=fail; fi
 rm -f "$DEMODST"
